@@ -177,7 +177,8 @@ def expected_args(cl, op, run) -> Tuple[str, Optional[List[Dict[str, Any]]]]:
         if "grey" in (cs, ce):
             return "grey", None
         zone = scn_zone(run)
-        dates = {localtime.local_dt(zone, op.wall_lo).date(), localtime.local_dt(zone, op.wall_hi).date()}
+        # "today" is the local date at any wall-clock reading taken while the operation ran
+        dates = {localtime.local_dt(zone, w).date() for w in (op.walls or [op.wall_lo, op.wall_hi])}
         alts = []
         for date in sorted(dates):
             sh, sm = int(a["start"][:2]), int(a["start"][3:])
@@ -735,7 +736,14 @@ def judge_c10(scn, run) -> Tuple[List[Viol], Dict[str, int]]:
         cnt(c, "judged-lists")
         cnt(c, "probe:records-%d" % len(recs))
         if op.outcome[0] != "ok":
-            if any(r[2] == 1 for r in recs):
+            mine = [cr for cr in created.get(cl.idx, []) for r in recs if (r[2], r[4:8], r[8:12]) == cr["rec"]]
+            if mine:
+                a = mine[0]["args"]
+                v.append(("C10/read-back-raised/%s" % op.outcome[1],
+                          "the record create_schedule emitted for (%s,%s,%s) makes the listing raise %s(%s) when a device lists it back" % (
+                              a["start"], a["end"], a.get("days"), op.outcome[1], op.outcome[2])))
+                continue
+            if any(r[2] & 1 for r in recs):
                 cnt(c, "grey:mask-bit0")
                 continue
             v.append(("C10/list-raised/%s" % op.outcome[1],
